@@ -24,7 +24,7 @@ PROPS = {
         extra_pkgs=[("sim/j5sgen", "internal/zzverif/j5sgen")],
         tiers={
             "quick": dict(budget=55, args=["-execs", "40", "-gen", "default"], selftest_runs=2),
-            "thorough": dict(budget=1500, args=["-execs", "200", "-gen", "large"], selftest_runs=3),
+            "thorough": dict(budget=1500, args=["-execs", "200", "-gen", "large"], selftest_runs=6),
         },
         level="exploration",
     ),
@@ -38,7 +38,7 @@ PROPS = {
         extra_pkgs=[],
         tiers={
             "quick": dict(budget=60, args=[], selftest_runs=2),
-            "thorough": dict(budget=1500, args=["-deep"], selftest_runs=3),
+            "thorough": dict(budget=1500, args=["-deep", "-scheds", "16"], selftest_runs=6),
         },
         level="exploration",
     ),
@@ -604,7 +604,7 @@ def selftest(prop):
     st = os.path.join(d, "selftest")
     os.makedirs(st)
     os.environ.setdefault("VERIF_SELFTEST_PROGRAMS", "40")
-    res = do_selftest(binary, prop, int(os.environ.get("VERIF_SEED", "1")), st, 9, [])
+    res = do_selftest(binary, prop, int(os.environ.get("VERIF_SEED", "1")), st, int(os.environ.get("VERIF_SELFTEST_PROCS", "9")), [])
     print(json.dumps(res, indent=1))
     return 0 if res.get("ok") else 2
 
